@@ -87,7 +87,13 @@ def oracles(ctx, o3):
         for name, act in [("tanh", torch.tanh), ("relu", torch.relu), ("silu", torch.nn.functional.silu), ("sigmoid", torch.sigmoid), ("abs", torch.abs),
                           # raw second moment > 1 as well as < 1
                           ("x**2", lambda t: t ** 2), ("cosh", torch.cosh), ("2*tanh", lambda t: 2 * torch.tanh(t)), ("1.5*x", lambda t: 1.5 * t),
-                          ("relu+1", lambda t: torch.relu(t) + 1), ("0.1*x", lambda t: 0.1 * t)]:
+                          ("relu+1", lambda t: torch.relu(t) + 1), ("0.1*x", lambda t: 0.1 * t),
+                          # the identity near 0 but not globally; piecewise-linear and saturating shapes
+                          ("hardtanh", torch.nn.functional.hardtanh), ("nn.Hardtanh()", torch.nn.Hardtanh()), ("clamp(-1.5,1.5)", lambda t: t.clamp(-1.5, 1.5)),
+                          ("clamp(-3,3)", lambda t: t.clamp(-3.0, 3.0)), ("relu6", torch.nn.functional.relu6), ("leaky_relu", torch.nn.functional.leaky_relu),
+                          ("elu", torch.nn.functional.elu), ("softsign", torch.nn.functional.softsign), ("gelu", torch.nn.functional.gelu),
+                          ("hardswish", torch.nn.functional.hardswish), ("x where |x|<2 else 2x", lambda t: torch.where(t.abs() < 2, t, 2 * t)),
+                          ("identity", lambda t: t)]:
             f = normalize2mom(act)
             m2 = gauss_hermite_second_moment(f)
             ctx.case(f"normalize2mom {name} second moment {m2:.5f}")
